@@ -188,6 +188,14 @@ Definition sort_names (l : list bytes) : list bytes := fold_right insert_name []
 
 Definition ignore_prefixes : list bytes := [[103;114;112;99;46]%N].   (* "grpc." *)
 
+(* a message type that no file declares (the harness's convention for a dangling reference: the name ends in ".Missing"):
+   protodesc.NewFiles refuses a file set in which a method's input or output type cannot be resolved *)
+Definition s_missing : bytes := [46; 77; 105; 115; 115; 105; 110; 103]%N.
+Definition dangling (t : bytes) : bool :=
+  (length s_missing <=? length t)%nat && bytes_eqb (skipn (length t - length s_missing) t) s_missing.
+Definition svc_types_ok (s : rservice) : bool := forallb (fun m => negb (dangling (rm_in m)) && negb (dangling (rm_out m))) (rs_methods s).
+Definition types_ok (set : list rfile) : bool := forallb (fun f => forallb svc_types_ok (rf_svcs f)) set.
+
 (* input ( universe listed policy limit ) ; output ( ) error | ( services ) *)
 Definition run_c05 (v : val) : val :=
   let u := map as_rfile (as_L (nthv 0 v)) in
@@ -196,7 +204,7 @@ Definition run_c05 (v : val) : val :=
   let names := sort_names (filter_names ignore_prefixes [] listed) in
   match collect (pol_sym pol u) (pol_file pol u) (as_nat (nthv 3 v)) names with
   | None => VL []
-  | Some set => if registry_ok set
+  | Some set => if registry_ok set && types_ok set
                 then match describe names set with Some svcs => VL [VL (map v_rservice svcs)] | None => VL [] end
                 else VL []
   end.
@@ -217,10 +225,12 @@ Definition prop_c05 (input impl : val) : option Z :=
       if negb (Z.eqb pol 5) && negb (Z.eqb pol 6) && Nat.leb (length u) (as_nat (nthv 3 input))
          && forallb (fun f => forallb (fun d => mem_b d (map rf_name u)) (rf_deps f)) u
          && match describe names u with Some _ => true | None => false end
+         && types_ok u
       then Some 3 else None
   | [svcs] =>
       match describe names u with
-      | Some want => if val_eqb svcs (VL (map v_rservice want)) then None else Some 1
+      | Some want => if negb (forallb svc_types_ok want) then Some 2      (* a listed service refers to a type declared nowhere *)
+                     else if val_eqb svcs (VL (map v_rservice want)) then None else Some 1
       | None => Some 2
       end
   | _ => Some 1
